@@ -32,7 +32,7 @@ Proof. repeat split; vm_compute; reflexivity. Qed.
    or a bare octets object) with a strictly shorter remainder, or a LIBRARY error.  In the model a
    built-in exception of the implementation is the explicit outcome Err (ECrash k) at every place where
    the Python code performs an unguarded partial operation, non-termination is Err EOutOfFuel.  Neither
-   is reachable.  (EUnmodelled: the model declines - decimal REAL, text codecs it does not cover; the
+   is reachable.  (EUnmodelled: the model declines - decimal REAL (every text codec is covered: C10_string_types_all_modelled); the
    harness counts those cases separately and decides them on the implementation alone.) *)
 Theorem C08_fails_cleanly : forall c sp b,
   match decode c sp b with
